@@ -114,6 +114,23 @@ fn programs(deep: bool) -> Vec<Program> {
             }
         }
     }
+    // ---- family A4 (deep mode only): every graph over 4 types with out-degree <= 2, one struct/enum assignment and wrapper draw each ----
+    if deep {
+        let subs4 = subsets_upto2(4);
+        for (a, s0) in subs4.iter().enumerate() {
+            for (b, s1) in subs4.iter().enumerate() {
+                for (c, s2) in subs4.iter().enumerate() {
+                    for (d, s3) in subs4.iter().enumerate() {
+                        let succ = vec![s0.clone(), s1.clone(), s2.clone(), s3.clone()];
+                        let kinds = mix(a * 31 + b, c * 17 + d, 4) % 16;
+                        let is_enum = [kinds & 1 != 0, kinds & 2 != 0, kinds & 4 != 0, kinds & 8 != 0];
+                        let seed = mix(a * 100 + b, c * 100 + d, kinds);
+                        ps.push(types_program(&succ, &is_enum, &move |i, k| mix(seed, i, k), format!("A4 graph {succ:?} enums {is_enum:?}")));
+                    }
+                }
+            }
+        }
+    }
     // ---- family A2: every graph over 2 types, every kind assignment, EVERY wrapper on every edge (all edges the
     //      same wrapper; deep: every assignment of wrappers to <= 3 edges) -------------------------------------
     let subs2 = subsets_upto2(2);
@@ -269,7 +286,7 @@ pub fn run() -> i32 {
     let mut rep = Report::new(
         "cycles",
         if deep {
-            "DEEP: every containment graph over 3 structs/enums with out-degree <= 2 x all 8 struct/enum assignments (one of 10 wrapper forms per edge); every graph over 2 types x every wrapper assignment to <= 3 edges; alias graphs over <= 3 aliases x every wrapper assignment; every inheritance graph over <= 3 interfaces; each compiled + validated + rendered in a child process with a 5 s watchdog"
+            "DEEP: every containment graph over 3 structs/enums with out-degree <= 2 x all 8 struct/enum assignments (one of 10 wrapper forms per edge); every graph over 4 types with out-degree <= 2 (83 521 graphs, one assignment each); every graph over 2 types x every wrapper assignment to <= 3 edges; alias graphs over <= 3 aliases x every wrapper assignment; every inheritance graph over <= 3 interfaces; each compiled + validated + rendered in a child process with a 5 s watchdog"
         } else {
             "every containment graph over 3 structs/enums with out-degree <= 2 x 2 struct/enum assignments (one of 10 wrapper forms per edge: plain, optional, sequence, dictionary key/value, result success/failure, nested, alias); every graph over 2 types x 10 wrappers (+ pairs); alias graphs over <= 3 aliases x 7 wrapper rotations; every inheritance graph over <= 3 interfaces; each compiled + validated + rendered in a child process with a 5 s watchdog"
         },
